@@ -843,6 +843,87 @@ func genShapesClient(c *ctx) *leanFile {
 	l.raw("/-- (receiver type, case tag or `*`, field, kind): kind `nil` = compared with nil under an error return,\n`sub` = its own CheckValid is called and its error returned, `optsub` = validated if present. -/")
 	l.raw("def validation : List (String × String × String × String) := " + c10Lean(table, 4))
 
+	// ---- raw JSON members of client message types, and which of them CheckValid passes to json.Valid ----
+	var rawMembers, rawValidated []string
+	if api != nil {
+		for _, d := range api.Decls {
+			switch x := d.(type) {
+			case *ast.GenDecl:
+				if x.Tok != token.TYPE {
+					continue
+				}
+				for _, sp := range x.Specs {
+					ts := sp.(*ast.TypeSpec)
+					st, ok := ts.Type.(*ast.StructType)
+					if !ok || !c10IsClientType(ts.Name.Name) {
+						continue
+					}
+					for _, fl := range st.Fields.List {
+						if isSel(fl.Type, "json", "RawMessage") {
+							for _, n := range fl.Names {
+								rawMembers = append(rawMembers, ts.Name.Name+"|"+n.Name)
+							}
+						}
+					}
+				}
+			case *ast.FuncDecl:
+				if x.Name.Name != "CheckValid" || x.Recv == nil || x.Body == nil || len(x.Recv.List) != 1 || len(x.Recv.List[0].Names) != 1 {
+					continue
+				}
+				recvType, _ := c10TypeName(x.Recv.List[0].Type)
+				recvVar := x.Recv.List[0].Names[0].Name
+				if !c10IsClientType(recvType) {
+					continue
+				}
+				// if [...] !json.Valid(m.F) { return <error> }  (also as `else if`)
+				ast.Inspect(x.Body, func(n ast.Node) bool {
+					is, ok := n.(*ast.IfStmt)
+					if !ok || len(is.Body.List) == 0 {
+						return true
+					}
+					rs, ok := is.Body.List[len(is.Body.List)-1].(*ast.ReturnStmt)
+					if !ok || len(rs.Results) != 1 || isNil(rs.Results[0]) {
+						return true
+					}
+					var conj func(e ast.Expr)
+					conj = func(e ast.Expr) {
+						switch y := e.(type) {
+						case *ast.BinaryExpr:
+							if y.Op == token.LAND {
+								conj(y.X)
+								conj(y.Y)
+							}
+						case *ast.UnaryExpr:
+							if y.Op != token.NOT {
+								return
+							}
+							call, ok := y.X.(*ast.CallExpr)
+							if !ok || !isSel(call.Fun, "json", "Valid") || len(call.Args) != 1 {
+								return
+							}
+							if sel, ok := call.Args[0].(*ast.SelectorExpr); ok && isIdent(sel.X, recvVar) {
+								rawValidated = append(rawValidated, recvType+"|"+sel.Sel.Name)
+							}
+						}
+					}
+					conj(is.Cond)
+					return true
+				})
+			}
+		}
+	}
+	sort.Strings(rawMembers)
+	sort.Strings(rawValidated)
+	l.fact("rawMembers")
+	if len(rawMembers) < 3 {
+		l.fail("rawMembers: json.RawMessage members of the client message types not found")
+	}
+	l.raw("/-- json.RawMessage members of the client message types (the decoder only skips over them). -/")
+	l.raw("def rawMembers : List (String × String) := " + c10Lean(rawMembers, 2))
+	l.fact("rawValidated")
+	l.raw("/-- those of them a CheckValid passes to json.Valid under an error return. -/")
+	l.raw("def rawValidated : List (String × String) := " + c10Lean(rawValidated, 2))
+
 	// ---- dereference table ----
 	derefs, asserts, indexes := map[string]bool{}, map[string]bool{}, map[string]bool{}
 	nfuncs := 0
